@@ -188,6 +188,7 @@ harnesses! {
     e2n_c10_pointers [native 0] => battery::c10_pointers;
     e2n_c01_struct_roundtrip [native 0] => battery::c01_battery;
     e2n_c04_fixed_tx [native 0] => battery::c04_fixed_tx;
+    e2n_c13_send_all [native 0] => battery::c13_send_all;
     c11_enc_base [stub 4] => c11::enc_base;
     c11_enc_enterprise [stub 4] => c11::enc_enterprise;
     c11_enc_reward [stub 4] => c11::enc_reward;
